@@ -18,7 +18,7 @@
 //!            T                settle (sleep 1ns on the paused clock = exact quiescence)
 //!            K <a>            settle; stop (gate open) or kill (gate closed) actor a; settle
 //!            H <a> | G <a> <n> | O <a>      close gate / give n permits / open gate
-//!            R <a> | RF <a>   let a's parked pre_start return Ok / Err; settle
+//!            R <a> | RF <a>   let a's parked pre_start return Ok (then settle) / settle, Err, settle
 //!            SS <a> <mod> <res> <mul> <add>   spawn_instant actor a whose pre_start subscribes
 //!                             ITSELF (same converter syntax) and then parks; settle
 //!            ST <a>           subscribe actor a through `OutputPortSubscriberTrait::subscribe_to_port`
@@ -27,7 +27,9 @@
 //! Receivers: an actor with an R/RF op is spawned with `spawn_instant` before the first
 //! operation, its pre_start parked (status Starting) until R/RF; an actor with an SS op is
 //! spawned by that op; every other actor is spawned and Running before the first operation.
-//! stdout: one Coq term per scenario: the received items per subscription, `[[..]; [..]]`, or
+//! stdout: one line per scenario: the received items per subscription, `[[..]; [..]]`, then ` # `
+//! and, per subscription, the inputs on which its converter closure was invoked (`[]` for `ST`
+//! subscriptions, whose converter is inside the library), or
 //! `Blocked` when the driver did not come back within the watchdog bound (each scenario runs on its
 //! own OS thread), or `Panicked`.
 use std::collections::{BTreeMap, HashSet};
@@ -125,9 +127,11 @@ impl StartGate {
     }
 }
 
+type Calls = Arc<Mutex<BTreeMap<u64, Vec<u64>>>>;
+
 struct StartArgs {
     park: Option<Arc<StartGate>>,
-    selfsub: Option<(Arc<OutputPort<u64>>, u64, [u64; 4])>,
+    selfsub: Option<(Arc<OutputPort<u64>>, u64, [u64; 4], Calls)>,
 }
 
 struct SubActor {
@@ -141,8 +145,9 @@ impl Actor for SubActor {
     type State = ();
     type Arguments = StartArgs;
     async fn pre_start(&self, myself: ActorRef<Item>, args: StartArgs) -> Result<(), ActorProcessingErr> {
-        if let Some((port, sid, [md, rs, mul, add])) = args.selfsub {
+        if let Some((port, sid, [md, rs, mul, add], calls)) = args.selfsub {
             port.subscribe(myself, move |k: u64| {
+                calls.lock().unwrap().entry(sid).or_default().push(k);
                 if md != 0 && k % md == rs {
                     Some(Item(sid, k * mul + add))
                 } else {
@@ -242,6 +247,7 @@ async fn run_scenario(line: &str) -> String {
         }
     }
     settle().await;
+    let calls: Calls = Arc::new(Mutex::new(BTreeMap::new()));
     let mut subs: Vec<u64> = Vec::new(); // subscription id -> actor
     let mut tags: BTreeMap<usize, u64> = BTreeMap::new(); // subscription id -> tag, if not the id itself
     for w in &ops {
@@ -260,7 +266,9 @@ async fn run_scenario(line: &str) -> String {
                 let (md, rs, mul, add) = (u(w[2]), u(w[3]), u(w[4]), u(w[5]));
                 let sid = subs.len() as u64;
                 subs.push(a);
+                let cl = calls.clone();
                 port_slot.as_ref().expect("S after D").subscribe(actors[&a].actor.clone().expect("S before SS"), move |k: u64| {
+                    cl.lock().unwrap().entry(sid).or_default().push(k);
                     if md != 0 && k % md == rs {
                         Some(Item(sid, k * mul + add))
                     } else {
@@ -291,13 +299,16 @@ async fn run_scenario(line: &str) -> String {
                 let (r, _h) = ractor::ActorRuntime::<SubActor>::spawn_instant(
                     None,
                     handler,
-                    StartArgs { park: Some(e.start.clone()), selfsub: Some((port_slot.as_ref().expect("SS after D").clone(), sid, conv)) },
+                    StartArgs { park: Some(e.start.clone()), selfsub: Some((port_slot.as_ref().expect("SS after D").clone(), sid, conv, calls.clone())) },
                 )
                 .expect("spawn_instant");
                 e.actor = Some(r);
                 settle().await;
             }
             "R" | "RF" => {
+                if w[0] == "RF" {
+                    settle().await; // like K: the receiver dies at a quiescent point
+                }
                 let e = actors.get_mut(&u(w[1])).unwrap();
                 e.start.release(w[0] == "R");
                 e.started = w[0] == "R";
@@ -335,7 +346,11 @@ async fn run_scenario(line: &str) -> String {
     }
     drop(port_slot);
     settle().await;
-    coq_list(&out)
+    let cl = calls.lock().unwrap();
+    let call_out: Vec<String> = (0..subs.len() as u64)
+        .map(|sid| coq_nums(cl.get(&sid).cloned().unwrap_or_default()))
+        .collect();
+    format!("{} # {}", coq_list(&out), coq_list(&call_out))
 }
 
 fn rt() -> tokio::runtime::Runtime {
@@ -368,6 +383,7 @@ fn main() {
         // largest burst into a parked forwarder that arrives completely = ring size
         let count = |n: u64| -> Option<u64> {
             let out = run_guarded(format!("- | S 0 1 0 1 0 ; T ; B 0 {n} ; T"));
+            let out = out.split(" # ").next().unwrap_or("").to_string();
             if out == "Blocked" || out == "Panicked" {
                 None
             } else if out == "[[]]" {
